@@ -70,7 +70,8 @@ def mk_rdms(variant, shift=0, n_rdm=3, n_cond=4, seed=0):
     return RDMs(d, dissimilarity_measure='euclidean', descriptors={'subj': 'x%d' % shift},
                 rdm_descriptors={'rid': c([shift + i for i in range(n_rdm)]), 'w': c([1.0 + i for i in range(n_rdm)]),
                                  'grp': c([i // 2 for i in range(n_rdm)]), 'one': c([7] * n_rdm)},
-                pattern_descriptors={'name': c(names), 'conds': c(names), 'cat': c([i % 2 for i in range(n_cond)])})
+                pattern_descriptors={'name': c(names), 'conds': c(names), 'cat': c([i % 2 for i in range(n_cond)]),
+                                     'asc': c([10 + i for i in range(n_cond)])})
 
 
 def mk_dataset(variant, temporal=False, seed=0, shift=0):
@@ -275,7 +276,11 @@ def _option_menu(base, variant, seed):
         'weights': [lambda: np.array([1.0, 2.0, 0.5]), lambda: 'w'],
         # grouping descriptors with repeated values, and the degenerate single group
         'rdm_descriptor': [lambda: 'grp', lambda: 'one'],
-        'pattern_descriptor': [lambda: 'cat'],
+        'pattern_descriptor': [lambda: 'cat', lambda: 'asc'],
+        # required arguments with an alternative shape: a stack of exactly one RDM
+        'rdms': [lambda: mk_rdms(variant, n_rdm=1, seed=seed)],
+        'data': [lambda: mk_rdms(variant, n_rdm=1, seed=seed)],
+        'rdm1': [lambda: mk_rdms(variant, n_rdm=1, seed=seed)],
     }
     if base in methods:
         M['method'] = [(lambda m=m: m) for m in methods[base]]
@@ -293,10 +298,10 @@ def option_variants(qual, kind, owner, fn):
         sig = inspect.signature(fn)
     except (TypeError, ValueError):
         return []
-    M = _option_menu(qual.split('@')[0], VARIANTS[0], 0)
+    M = _option_menu(_base(qual), VARIANTS[0], 0)
     out = []
     for p in sig.parameters.values():
-        if p.default is inspect._empty or p.name not in M:
+        if p.name not in M or (p.default is inspect._empty and p.name not in ('rdms', 'data', 'rdm1')):
             continue
         for k in range(len(M[p.name])):
             out.append([p.name, k])
@@ -317,6 +322,14 @@ def discover():
             except Exception:
                 pass
     seen, out = set(), []
+    names = set()
+
+    def uniq(name, o):
+        # two public functions of the same name in different modules (util.pooling.pool_rdm and
+        # util.inference_util.pool_rdm) are two callables: the later one carries its module
+        q = name if name not in names else '%s#%s' % (name, o.__module__.split('.')[-1])
+        names.add(q)
+        return q
     for m in mods:
         for n, o in sorted(vars(m).items()):
             if n.startswith('_') or not getattr(o, '__module__', '').startswith('rsatoolbox'):
@@ -328,14 +341,19 @@ def discover():
                 continue
             seen.add(key)
             if inspect.isfunction(o):
-                out.append((o.__name__, 'function', None, o))
+                out.append((uniq(o.__name__, o), 'function', None, o))
             elif inspect.isclass(o):
-                out.append((o.__name__, 'class', o, o))
+                out.append((uniq(o.__name__, o), 'class', o, o))
                 for mn, mo in sorted(vars(o).items()):
                     if mn.startswith('_') or not inspect.isfunction(mo):
                         continue
                     out.append(('%s@%s' % (mn, o.__name__), 'method', o, mo))
     return out
+
+
+def _base(qual):
+    """name of the callable without the @Owner / #module qualifiers"""
+    return qual.split('@')[0].split('#')[0]
 
 
 def _self_factory(cls, variant, seed):
@@ -367,7 +385,7 @@ def _self_factory(cls, variant, seed):
 
 def plan(qual, kind, owner, fn, variant, seed, opt=None):
     """-> (make_call, None) or (None, reason). make_call() returns (args_named: list[(name, value)], thunk)"""
-    base = qual.split('@')[0]
+    base = _base(qual)
     if base in SKIP_FUNCS or qual in SKIP_FUNCS:
         return None, 'skipped: plumbing / IO primitive / documented in-place'
     if kind == 'method' and base in IN_PLACE:
@@ -560,7 +578,7 @@ def shards(tier, seed):
         # one optional parameter changed at a time (list-descriptor variants; thorough: all four)
         ov = option_variants(qual, kind, owner, fn)
         for opt in ov:
-            for v in (VARIANTS if tier == 'thorough' else VARIANTS[:1] + VARIANTS[2:3]):
+            for v in VARIANTS:
                 out.append({'qual': qual, 'kind': kind, 'variant': list(v), 'opt': opt})
         # two optional parameters changed together (a step taken only for one combination of
         # options, e.g. a fold descriptor that is only generated for cross-validated methods when
@@ -568,7 +586,7 @@ def shards(tier, seed):
         for a_, b_ in itertools.combinations(ov, 2):
             if a_[0] == b_[0]:
                 continue
-            for v in (VARIANTS if tier == 'thorough' else VARIANTS[:1]):
+            for v in (VARIANTS if tier == 'thorough' else VARIANTS[:2]):
                 out.append({'qual': qual, 'kind': kind, 'variant': list(v), 'opt': [a_, b_]})
     out.append({'qual': '__coverage__', 'kind': 'meta', 'variant': ['list', False]})
     return out
@@ -627,11 +645,11 @@ def run_case(case, ctx):
     for (n, fb), (_, fa) in zip(before, after):
         for f in fb:
             if fa.get(f) != fb[f]:
-                if qual.split('@')[0] in IN_PLACE:
+                if _base(qual) in IN_PLACE:
                     continue
                 ctx.fail('mutates|%s|arg:%s.%s' % (qual, n, f), dict(case, step='producer'),
                          'argument %r field %r changed bit-wise during the call' % (n, f))
-    if qual in ACCESSORS or qual.split('@')[0] in ACCESSORS or (kind == 'class' and qual in CONTAINERS):
+    if qual in ACCESSORS or _base(qual) in ACCESSORS or (kind == 'class' and qual in CONTAINERS):
         ctx.count('accessor-or-container-constructor-not-judged-for-independence')
         return
     res_targets = _targets(res, 'result')
